@@ -55,7 +55,97 @@ fn work_dir(tier: Tier) -> PathBuf {
     vmodel::root().join("harness/run").join(format!("C03-{}-fuzz", tier.name()))
 }
 
-fn prepare(tier: Tier, seed: u64, _dir: &Path) -> Result<Value, PrepError> {
+fn prepare(tier: Tier, seed: u64, dir: &Path) -> Result<Value, PrepError> {
+    let mut info = prepare_fuzz(tier, seed, dir)?;
+    if tier == Tier::Thorough {
+        let m = miri_stage(tier, seed)?;
+        if let (Some(a), Some(b)) = (info.as_object_mut(), m.as_object()) {
+            for (k, v) in b {
+                a.insert(k.clone(), v.clone());
+            }
+            let extra = a.get("extra_evaluations").and_then(|v| v.as_u64()).unwrap_or(0) + b.get("miri_cases").and_then(|v| v.as_u64()).unwrap_or(0);
+            a.insert("extra_evaluations".into(), json!(extra));
+        }
+    }
+    Ok(info)
+}
+
+/// Thorough tier only: a few hundred generated sessions interpreted by Miri (16 processes), which sees what neither the
+/// precondition assertions nor ASan can: aliasing violations, uninitialised reads, dangling or misaligned accesses inside
+/// the library's unsafe blocks. A Miri error or a broken invariant is a violation; an unavailable Miri is only noted.
+fn miri_stage(tier: Tier, seed: u64) -> Result<Value, PrepError> {
+    use proptest::strategy::ValueTree;
+    use proptest::test_runner::{Config, RngSeed, TestRunner};
+    let t0 = std::time::Instant::now();
+    let wd = vmodel::root().join("harness/run").join(format!("C03-{}-miri", tier.name()));
+    let _ = std::fs::remove_dir_all(&wd);
+    let input = wd.join("in");
+    std::fs::create_dir_all(&input).unwrap();
+    let per_proc = 24usize;
+    let mut runner = TestRunner::new(Config {
+        rng_seed: RngSeed::Fixed(u64::from_le_bytes(vmodel::engine::mix_seed(seed, &["C03", "miri"], 0)[..8].try_into().unwrap())),
+        failure_persistence: None,
+        ..Config::default()
+    });
+    let strat = case_strategy();
+    for i in 0..16 * per_proc {
+        let mut v = strat.new_tree(&mut runner).unwrap().current();
+        v.truncate(72);
+        std::fs::write(input.join(format!("{:04}.bin", i)), v).unwrap();
+    }
+    let target = vmodel::rooted("harness/target/miri");
+    let run = |shard: usize, max: usize| {
+        Command::new("cargo")
+            .args(["+nightly", "miri", "run", "-q", "-p", "mirirun", "--target-dir", &target, "--"])
+            .arg(&input)
+            .arg(shard.to_string())
+            .arg("16")
+            .arg(max.to_string())
+            .current_dir(vmodel::rooted("harness"))
+            .env("CARGO_NET_OFFLINE", "true")
+            .env("MIRIFLAGS", "-Zmiri-disable-isolation")
+            .stdin(Stdio::null())
+            .stdout(Stdio::piped())
+            .stderr(Stdio::piped())
+            .spawn()
+    };
+    // build once (max = 0 runs no case)
+    let warm = run(0, 0).and_then(|c| c.wait_with_output());
+    match &warm {
+        Ok(o) if o.status.success() => {}
+        Ok(o) => {
+            let tail: Vec<&str> = std::str::from_utf8(&o.stderr).unwrap_or("").lines().rev().take(6).collect();
+            return Ok(json!({"miri": format!("unavailable (build or start-up failed): {}", tail.into_iter().rev().collect::<Vec<_>>().join(" | "))}));
+        }
+        Err(e) => return Ok(json!({"miri": format!("unavailable: {}", e)})),
+    }
+    let children: Vec<_> = (0..16).filter_map(|k| run(k, per_proc).ok().map(|c| (k, c))).collect();
+    let mut cases = 0u64;
+    for (k, c) in children {
+        let Ok(o) = c.wait_with_output() else { continue };
+        let out = String::from_utf8_lossy(&o.stdout).to_string();
+        let err = String::from_utf8_lossy(&o.stderr).to_string();
+        if o.status.success() {
+            cases += out.lines().filter(|l| l.starts_with("MIRI-CASE")).count() as u64;
+            continue;
+        }
+        let last = out.lines().filter(|l| l.starts_with("MIRI-CASE ")).last().map(|l| l[10..].to_string());
+        let why: Vec<&str> = err.lines().chain(out.lines()).filter(|l| l.contains("Undefined Behavior") || l.contains("MIRI-ORACLE-FAIL") || l.starts_with("error") || l.contains("panicked")).take(5).collect();
+        let Some(file) = last else {
+            return Err(PrepError::Inconclusive(format!("Miri process {} failed before its first case: {}", k, why.join(" | "))));
+        };
+        let data = std::fs::read(&file).unwrap_or_default();
+        return Err(PrepError::Violation(Failure::new(
+            "fuzz-input",
+            json!({"hex": hex(&data), "decoded": format!("{:?}", fuzzrun::decode(&data)), "engine": "miri"}),
+            "no undefined behaviour reported by Miri, no panic, no broken invariant",
+            why.join(" | "),
+        )));
+    }
+    Ok(json!({"miri": "cargo +nightly miri run, 16 processes", "miri_cases": cases, "miri_s": (t0.elapsed().as_secs_f64() * 10.0).round() / 10.0}))
+}
+
+fn prepare_fuzz(tier: Tier, seed: u64, _dir: &Path) -> Result<Value, PrepError> {
     let t0 = std::time::Instant::now();
     let build = Command::new("cargo")
         .args(["+nightly", "fuzz", "build", "session", "--target-dir", &vmodel::rooted("harness/target/fuzz")])
